@@ -79,6 +79,17 @@ def check(spec):
     _set_globals(spec["g2"])
     B = treg.build(t)
     sig_name = "+".join(sorted(set(treg.leaf_names(t))))[:80]
+    # optional strength history around the injection (same for both instances): the seed must still determine everything
+    def _scale(f):
+        if f is None:
+            return
+        for T in (A, B):
+            if hasattr(T, "scale_strength"):
+                try:
+                    T.scale_strength(f)
+                except AssertionError:
+                    raise Refused("scale_strength refused (KDRandomRotation lb != ub)")
+    _scale(spec.get("pre_scale"))
     try:
         A.set_rng(np.random.default_rng(s))
         B.set_rng(np.random.default_rng(s))
@@ -87,6 +98,7 @@ def check(spec):
         fr = traceback.extract_tb(e.__traceback__)[-1]
         raise Violation(f"set_rng-raises:{type(e).__name__}:{fr.filename.split('/')[-1]}", f"{t}: {e!r}"[:300])
     unreached = _first_unreached(A, B)
+    _scale(spec.get("post_scale"))
     _set_globals(spec["g1"] + 17)
     before = _global_snapshot()
     try:
@@ -127,7 +139,8 @@ def _culprit(t):
 def _wrap(tstrat):
     return st.fixed_dictionaries({"t": tstrat, "key": st.integers(0, 400), "seed": st.integers(0, 2 ** 32 - 1),
                                   "m": st.integers(1, 5), "h": st.integers(0, 3), "g1": st.integers(0, 2 ** 31),
-                                  "g2": st.integers(0, 2 ** 31)})
+                                  "g2": st.integers(0, 2 ** 31), "pre_scale": st.sampled_from([None, None, 0.0, 0.5]),
+                                  "post_scale": st.sampled_from([None, 1.0, 0.7])})
 
 
 def _leaf_facet(name):
